@@ -29,3 +29,52 @@ Qed.
 (* the stream wrapper only touches messages that were actually received *)
 Theorem stream_recv_failed_untouched : forall name r, stream_recv name false r = r.
 Proof. reflexivity. Qed.
+
+(* ---- sequences of requests of arbitrary message types ---- *)
+
+(* field numbers and their order never change *)
+Theorem replace_in_keeps_fields : forall t v d, map fst (replace_in t v d) = map fst v.
+Proof.
+  intros t v d. unfold replace_in. rewrite map_map. apply map_ext. intros p. destruct (is_empty_name t p); reflexivity.
+Qed.
+
+(* only the field called "name" of THIS message type is ever written: an entry changes iff it is
+   the singular string name field of t and is empty, and then it becomes the default *)
+Theorem replace_in_only_empty_name : forall t v d i p,
+  nth_error v i = Some p ->
+  nth_error (replace_in t v d) i =
+  Some (if is_empty_name t p then (fst p, d) else p).
+Proof. intros t v d i p H. unfold replace_in. rewrite nth_error_map, H. reflexivity. Qed.
+
+Theorem is_empty_name_spec : forall t p, is_empty_name t p = true <->
+  exists f, name_field t = Some f /\ fk f = FString /\ fst p = fnum f /\ snd p = ""%string.
+Proof.
+  intros t p. unfold is_empty_name. split.
+  - destruct (name_field t) as [f|]; [|discriminate]. destruct (fk f) eqn:E; try discriminate.
+    intros H. apply andb_true_iff in H. destruct H as [H1 H2]. exists f. repeat split; auto.
+    + apply Z.eqb_eq. exact H1.
+    + apply String.eqb_eq. exact H2.
+  - intros [f [-> [-> [-> H]]]]. rewrite Z.eqb_refl. destruct p as [n s]. cbn in *. subst s. reflexivity.
+Qed.
+
+(* the name field is found by its text name in the type of the message at hand *)
+Theorem name_field_spec : forall t f, name_field t = Some f -> In f (tfields t) /\ ftext f = "name"%string.
+Proof.
+  intros t f H. unfold name_field in H. apply find_some in H. destruct H as [H1 H2].
+  split; auto. apply String.eqb_eq. exact H2.
+Qed.
+
+(* for EVERY sequence of requests of arbitrary types through one interceptor, each request is
+   treated on its own: what passed before (of whatever type) has no influence, a request whose
+   RecvMsg failed is untouched *)
+Theorem default_name_sequence : forall d steps i path t v,
+  nth_error steps i = Some (path, t, v) ->
+  nth_error (run_seq d steps) i = Some (if path =? 2 then v else replace_in t v d).
+Proof.
+  intros d steps. unfold run_seq. induction steps as [|s steps IH]; intros [|i] path t v H; cbn in *; try discriminate.
+  - inversion H. reflexivity.
+  - apply IH. exact H.
+Qed.
+
+Theorem run_seq_app : forall d s1 s2, run_seq d (s1 ++ s2) = run_seq d s1 ++ run_seq d s2.
+Proof. intros. unfold run_seq. apply map_app. Qed.
